@@ -139,6 +139,8 @@ func runC09(p *core.Program, r *core.Report) {
 		h.checkIndexSign()
 		h.checkKeyDomain()
 		h.checkCtor()
+		h.checkEntryCache()
+		h.checkTableInstall()
 	}
 }
 
@@ -174,6 +176,8 @@ func runC12(p *core.Program, r *core.Report) {
 		h.checkIndexSign()
 		h.checkKeyDomain()
 		h.checkCtor()
+		h.checkEntryCache()
+		h.checkTableInstall()
 	}
 	c12Serial(p, r)
 	c12EnumWalk(p, r)
